@@ -459,6 +459,14 @@ Definition native_witnesses (t : tx) : outcome (list bytes) :=
            else []) (tx_adhoc t)).
 
 (** * entry_point *)
+(** `distinct`: the members of a set field, each once, in the order of their first mention *)
+Fixpoint distinct_from {A} `{EqDecision A} (seen : list A) (l : list A) : list A :=
+  match l with
+  | [] => []
+  | x :: r => if bool_decide (x ∈ seen) then distinct_from seen r else x :: distinct_from (x :: seen) r
+  end.
+Definition distinct {A} `{EqDecision A} (l : list A) : list A := distinct_from [] l.
+
 Definition compile_tx (has_cost_model : N -> bool) (t : tx) : outcome atx :=
   start <- match tx_validity t with Some v => compile_validity_field (v_since v) | None => Ok None end ;;
   ttl <- match tx_validity t with Some v => compile_validity_field (v_until v) | None => Ok None end ;;
@@ -467,12 +475,14 @@ Definition compile_tx (has_cost_model : N -> bool) (t : tx) : outcome atx :=
   feen <- expr_into_number 64 (tx_fees t) ;;
   fee <- number_into_u64 feen ;;
   minted <- compile_mint_block t ;;
-  refs <- refs_lenient (tx_references t) ;;
+  refs0 <- refs_lenient (tx_references t) ;;
+  let refs := distinct refs0 in
   ws <- compile_withdrawals t ;;
   let coll_slots := omap (fun e => match e with ENone => None | _ => Some e end) (tx_collateral t) in
-  coll <- refs_lenient coll_slots ;;
+  coll0 <- refs_lenient coll_slots ;;
+  let coll := distinct coll0 in
   signers <- match tx_signers t with
-             | Some ss => hs <- omapM keyhash_of_expr ss ;; Ok (non_empty hs)
+             | Some ss => hs <- omapM keyhash_of_expr ss ;; Ok (non_empty (distinct hs))
              | None => Ok None
              end ;;
   don <- compile_donation t ;;
